@@ -301,6 +301,17 @@ func (in *Interp) crossScript(neg *smt.Term) string {
 			fmt.Fprintf(&b, "(declare-const |%s| (_ BitVec %d))\n", v.Name, v.W)
 		}
 	}
+	var defs []string
+	dseen := map[int]bool{}
+	for _, t := range in.P.pc {
+		smt.Definitions(t, dseen, &defs)
+	}
+	if !neg.IsConst() {
+		smt.Definitions(neg, dseen, &defs)
+	}
+	for _, d := range defs {
+		b.WriteString(d + "\n")
+	}
 	for _, t := range in.P.pc {
 		fmt.Fprintf(&b, "(assert %s)\n", t.SMT())
 	}
